@@ -194,6 +194,55 @@ def slopeAbs (db : Db) (q : Quantity) (toU : Sym) (x : Rat) : Rat :=
   | .ok a, .ok b => absR (b - a)
   | _, _ => 1
 
+/-! ### manager histories -/
+
+def mappingOf (m : Json) : Except String (List (Sym × Sym)) := do
+  (← arrOf m).mapM (fun p => do
+    match p with
+    | .arr #[c, u] => pure (← symOf c, ← symOf u)
+    | _ => throw "mapping item must be [category, unit]")
+
+/-- one call of a history; the inner `Except` = the arguments could not be built (the real call raises
+before it reaches the manager) -/
+def mgrOpOf (db : Db) (j : Json) : Except String (Except ErrKind MgrOp) := do
+  let k ← getStr j "k"
+  match k with
+  | "add" => pure (.ok (.add (← getSym j "id") (← mappingOf (← getObj j "mapping"))))
+  | "remove" => pure (.ok (.remove (← getSym j "id")))
+  | "set_current" => pure (.ok (.setCurrent (← getOptSym j "id")))
+  | "set_default_unit" => pure (.ok (.setDefaultUnit (← getOptSym j "on") (← getSym j "c") (← getSym j "u")))
+  | "remove_category" => pure (.ok (.removeCategory (← getOptSym j "on") (← getSym j "c")))
+  | "convert" => pure (.ok (.convert (← getSym j "c") (← getSym j "u") (← valOf (← getObj j "val"))))
+  | "convert_scalar" =>
+    let x ← getRat j "x"
+    match ← quantityOf db (← getObj j "q") with
+    | .error e => pure (.error e)
+    | .ok q => pure (.ok (.convertScalar ⟨q, x⟩))
+  | _ => throw s!"bad manager op {k}"
+
+def mappingJ (m : List (Sym × Sym)) : Json :=
+  Json.arr ((m.map (fun (c, u) => Json.arr #[symJ c, symJ u])).toArray)
+
+def mgrOutJ (db : Db) (op : MgrOp) (r : Except ErrKind MgrOut) : Json :=
+  match r with
+  | .error e => errJ e
+  | .ok (.state cur) => okJ (Json.mkObj [("cur", mappingJ cur)])
+  | .ok (.conv v toU) =>
+    match op with
+    | .convert c u val => okJ (Json.mkObj [("unit", symJ toU), ("val", valJ (convMag db c u toU) val v)])
+    | _ => okJ (Json.mkObj [("unit", symJ toU)])
+  | .ok (.scalar s) =>
+    match op with
+    | .convertScalar s0 => okJ (scalarJ s (qMag db s0.q (some s.q.unit) s0.value s.value))
+    | _ => okJ (scalarJ s 0)
+
+def runMgr (db : Db) : Mgr → List (Except ErrKind MgrOp) → List Json
+  | _, [] => []
+  | m, .error e :: rest => errJ e :: runMgr db m rest
+  | m, .ok op :: rest =>
+    let r := m.step db op
+    mgrOutJ db op r.2 :: runMgr db r.1 rest
+
 def handle (j : Json) : Except String Json := do
   let op ← getStr j "op"
   let db ← dbOf (← getStr j "db")
@@ -381,6 +430,9 @@ def handle (j : Json) : Except String Json := do
     | .error e => pure (errJ e)
     | .ok q =>
       pure (exJ (convertScalarToCurrent db cur ⟨q, x⟩) (fun s => scalarJ s (qMag db q (some s.q.unit) x s.value)))
+  | "mgr_history" =>
+    let ops ← (← arrOf (← getObj j "ops")).mapM (mgrOpOf db)
+    pure (okJ (Json.arr (runMgr db Mgr.new ops).toArray))
   | _ => throw s!"unknown op {op}"
 
 def step (j : Json) : Json :=
